@@ -27,7 +27,11 @@ SPECIALS = ['nan', 'NaN', 'inf', '-inf', 'Infinity', '-Infinity', '1e999', '-1e9
             '١٢٣', '１２', '1,000', '1.5e3', '.5', '5.', '+.5e-1', '--1', '+-1', '1 2', '', ' ', '123-45-6789',
             '123456789', '12345678', '1234567890', '123-45-678a', '１２３４５６７８９', '011000015', '991000015', '01100001',
             'abc-123', 'a' * 17, 'a' * 18, 'a b', 'Single', 'single', 'SINGLE', ' Single ', 'Singl', 'Singlee', 'Sin gle',
-            'taxpayer', 'spouse', 'both', 'nan%', '1%', '%(x)s', '1e5', '1E5', '0e0', '-0', '-0.0', '00012', '1' * 400]
+            'taxpayer', 'spouse', 'both', 'nan%', '1%', '%(x)s', '1e5', '1E5', '0e0', '-0', '-0.0', '00012', '1' * 400,
+            # words a prompt loop might take for commands, and names every enumeration class answers to
+            'q', 'Q', 'quit', 'Quit', ' q ', 'exit', 'abort', 'cancel', 'skip', 'none', 'None', 'null', '?', 'help', 'h',
+            '__doc__', '__module__', '__members__', '__class__', '__name__', 'mro', 'name', 'value', '_member_map_',
+            '_value2member_map_', '_member_names_', 'Red.name', 'Color.Red', 'r', 'g']
 
 TRUE_WORDS = {'true', 'yes', 'y', '1', 'on'}
 FALSE_WORDS = {'false', 'no', 'n', '0', 'off'}
